@@ -352,7 +352,30 @@ class TimeDomain(ZoneDomain):
 
     # -- refinement ------------------------------------------------------------------
     def _daypart(self, test: ast.AST) -> tuple[ast.AST, int] | None:
-        """E.hour == 0 [and E.minute == 0 [and E.second == 0]] -> (E, seconds)"""
+        """E.hour == 0 [and E.minute == 0 [and E.second == 0]] -> (E, seconds);
+        E.time() < datetime.time(hour=h, minute=m, second=s) -> (E, 3600h + 60m + s)"""
+        if isinstance(test, ast.Compare) and len(test.ops) == 1 and isinstance(test.ops[0], ast.Lt) \
+                and isinstance(test.left, ast.Call) and isinstance(test.left.func, ast.Attribute) \
+                and test.left.func.attr == 'time' and not test.left.args \
+                and isinstance(test.comparators[0], ast.Call) \
+                and dotted(test.comparators[0].func) in ('datetime.time', 'time'):
+            c = test.comparators[0]
+            vals = {'hour': 0, 'minute': 0, 'second': 0}
+            order = ['hour', 'minute', 'second']
+            ok = True
+            for i, a in enumerate(c.args):
+                if i < 3 and isinstance(a, ast.Constant) and isinstance(a.value, int):
+                    vals[order[i]] = a.value
+                else:
+                    ok = False
+            for k in c.keywords:
+                if k.arg in vals and isinstance(k.value, ast.Constant) and isinstance(k.value.value, int):
+                    vals[k.arg] = k.value.value
+                else:
+                    ok = False
+            secs = vals['hour'] * 3600 + vals['minute'] * 60 + vals['second']
+            if ok and secs > 0:
+                return test.left.func.value, secs
         parts = test.values if isinstance(test, ast.BoolOp) and isinstance(test.op, ast.And) else [test]
         recv = None
         got = set()
@@ -374,6 +397,8 @@ class TimeDomain(ZoneDomain):
     def assume_split(self, test: ast.AST, s: Zone, truth: bool) -> list:
         if isinstance(test, ast.UnaryOp) and isinstance(test.op, ast.Not):
             return self.assume_split(test.operand, s, not truth)
+        if isinstance(test, ast.Name) and f'bool:{test.id}' in s.aux:
+            return self.assume_split(s.aux[f'bool:{test.id}'][0], s, truth)     # ok = <test>; if ok:
         dp = self._daypart(test)
         if dp is not None:
             v = self.eval(dp[0], s)
@@ -433,6 +458,26 @@ class TimeDomain(ZoneDomain):
                     return []
                 s.facts.add(f'some:{x}')
             return [s]
+        # membership of an option value in a tuple of strings: one path per member
+        if isinstance(test, ast.Compare) and len(test.ops) == 1 and isinstance(test.ops[0], (ast.In, ast.NotIn)) \
+                and isinstance(test.comparators[0], (ast.Tuple, ast.List, ast.Set)) \
+                and test.comparators[0].elts \
+                and all(isinstance(e_, ast.Constant) and isinstance(e_.value, str) for e_ in test.comparators[0].elts):
+            member = isinstance(test.ops[0], ast.In) == truth
+            outs = []
+            if member:
+                for e_ in test.comparators[0].elts:
+                    eq = ast.Compare(left=test.left, ops=[ast.Eq()], comparators=[e_])
+                    outs.extend(self.assume_split(eq, s.copy(), True))
+                return outs
+            cur = [s]
+            for e_ in test.comparators[0].elts:
+                eq = ast.Compare(left=test.left, ops=[ast.Eq()], comparators=[e_])
+                nxt = []
+                for z in cur:
+                    nxt.extend(self.assume_split(eq, z, False))
+                cur = nxt
+            return cur
         # string comparison of an option value: a path label
         if isinstance(test, ast.Compare) and len(test.ops) == 1 and isinstance(test.ops[0], ast.Eq) \
                 and isinstance(test.comparators[0], ast.Constant) \
@@ -487,7 +532,9 @@ class TimeDomain(ZoneDomain):
                 z.add(x, ZERO, 0)
                 z.add(ZERO, x, 0)
                 if z.close():
-                    outs.append(z)
+                    self._int_tighten(z)        # d == 0 with d = X - A known: X == A
+                    if not z.bottom:
+                        outs.append(z)
             return outs
         if isinstance(test, ast.BoolOp):
             outs = super().assume_split(test, s, truth)
